@@ -353,13 +353,16 @@ PROPS = {
     "C07": {
         "category": "other",
         "harness_modes": ["crosscheck"],
+        "depends": [("C01", ["ScatterStep._scatter", "GatherStep._gather"], "only_tagged")],
         "explanation": "Fragment. With a ghost model of the token and provenance tables (row ids increase; depender -> set of dependees), BaseStep._persist_token is proved, "
         "for every token, input-id list and table state: a token that already has an id is refused (WorkflowDefinitionException) before anything is written; the token is saved "
         "exactly once and gets the next id; if an input id is missing the step fails (WorkflowExecutionException) instead of recording a shorter link set; otherwise the token is "
         "linked to EXACTLY the given ids (none for an empty list), no other record changes, and the invariant 'every dependee id is smaller than its depender id' is preserved — "
         "so the recorded relation is contained in <, hence acyclic, with every dependee persisted first. get_entity_ids is proved to return exactly the ids of the persisted "
-        "entities. SqliteDatabase.add_provenance is proved to hand executemany one (dependee, depender) row per input id, all of them. NOT decided by proof: that every step "
-        "PASSES the right ids (the ~35 call sites of _persist_token inside the steps' run loops), Token.save itself, the SQL. Covered by the bounded run-time check: real "
+        "entities. SqliteDatabase.add_provenance is proved to hand executemany one (dependee, depender) row per input id, all of them. Two CALL SITES are proved too (clauses `ensures_for(\"C07\", ...)` of the C01 units, re-proved here; a ghost log records, per _persist_token call, "
+        "the token, the port and the ENTITIES whose ids were passed): ScatterStep._scatter links every emitted element and the size token to exactly the scattered list token, each "
+        "persisted for the port it is put on; GatherStep._gather links the gathered list to the size token of the key followed by every collected element of the key. "
+        "NOT decided by proof: the other ~33 call sites of _persist_token inside the steps' run loops, Token.save itself, the SQL. Covered by the bounded run-time check: real "
         "transformers (1..3 ports, tags arriving in independent orders per port), gathers of 1..40 elements with a delivered or a synthesised size token, and a real scatter in "
         "front of a gather are executed by the real executor and the WHOLE provenance table is compared with the construction.",
         "assumptions": [
